@@ -1003,22 +1003,73 @@ func (bp *boundProver) searchSummary(callee *ssa.Function) (ri, bi, field int, o
 		}
 		n++
 		pos, fnd := -1, -1
-		var call *ssa.Call
+		var call, via *ssa.Call
+		viaField := -1
 		for i, res := range ret.Results {
 			ex, isEx := res.(*ssa.Extract)
 			if !isEx {
 				continue
 			}
 			c2, isCall := ex.Tuple.(*ssa.Call)
-			if !isCall || !isBinarySearch(c2) {
+			if !isCall {
 				continue
 			}
-			call = c2
-			if ex.Index == 0 {
-				pos = i
-			} else {
-				fnd = i
+			if isBinarySearch(c2) {
+				call = c2
+				if ex.Index == 0 {
+					pos = i
+				} else {
+					fnd = i
+				}
+				continue
 			}
+			// the pair comes from another search helper on the same receiver (get through search)
+			if inner := c2.Common().StaticCallee(); inner != nil && inner != callee && isModuleSSA(inner) && !bp.inSearchSum[inner] && len(c2.Common().Args) > 0 && c2.Common().Args[0] == ssa.Value(callee.Params[0]) {
+				if bp.inSearchSum == nil {
+					bp.inSearchSum = map[*ssa.Function]bool{}
+				}
+				bp.inSearchSum[callee] = true
+				ri2, bi2, f2, ok2 := bp.searchSummary(inner)
+				delete(bp.inSearchSum, callee)
+				if ok2 {
+					via, viaField = c2, f2
+					if ex.Index == ri2 {
+						pos = i
+					} else if ex.Index == bi2 {
+						fnd = i
+					}
+				}
+			}
+		}
+		if call == nil && via != nil && pos >= 0 {
+			// summarised inner search: the field is the inner one's, the flag may again be a constant under its edge
+			if fnd < 0 {
+				for i, res := range ret.Results {
+					k, isK := res.(*ssa.Const)
+					if !isK {
+						continue
+					}
+					bv, isB := constBool(k)
+					if !isB {
+						continue
+					}
+					if !bv {
+						fnd = i
+						continue
+					}
+					for _, cc := range controlling(ret.Block()) {
+						if ex, isEx := cc.Cond.(*ssa.Extract); isEx && ex.Tuple == ssa.Value(via) && cc.Edge == 0 {
+							fnd = i
+						}
+					}
+				}
+			}
+			if fnd < 0 || (ri >= 0 && ri != pos) || (bi >= 0 && bi != fnd) || (field >= 0 && field != viaField) {
+				good = false
+				return
+			}
+			ri, bi, field = pos, fnd, viaField
+			return
 		}
 		if pos < 0 || call == nil {
 			good = false
